@@ -8,9 +8,9 @@ Local Open Scope R_scope.
 Definition g_j0 (x : R) := sin x / x.
 Definition g_j1 (x : R) := (sin x - x * cos x) / (x * x).
 Definition g_j2 (x : R) := ((3 - x * x) * sin x - 3 * x * cos x) / (x * x * x).
-Definition p_j0 (x : R) := 1 - x * x / 6.
+Definition p_j0 (x : R) := 1 - x * x / 6 + x * x * x * x / 120.
 Definition p_j1 (x : R) := (x - x * x * x / 10) / 3.
-Definition p_j2 (x : R) := x * x / 15.
+Definition p_j2 (x : R) := x * x / 15 * (1 - x * x / 14).
 
 Lemma not_small_nz x : ~ Rabs x < eps64 -> x <> 0.
 Proof. intros H E; subst x; apply H; rewrite Rabs_R0; unfold eps64; apply Rinv_0_lt_compat; lra. Qed.
@@ -43,9 +43,9 @@ Proof. intros H. unfold g_j2. tower fs. Qed.
 
 (* the generated functions coincide with the closed forms wherever the test |re| < eps is false, with the series
    polynomials wherever it is true -- as dual numbers, all parts at once *)
-Definition series_j0 (d : Dual3 R) : Dual3 R := ((Overload.one : Dual3 R) - d * d / (Rlit (FLit (6 # 1)%Q 0 0)))%rs.
+Definition series_j0 (d : Dual3 R) : Dual3 R := ((Overload.one : Dual3 R) - d * d / (Rlit (FLit (6 # 1)%Q 0 0)) + d * d * d * d / (Rlit (FLit (120 # 1)%Q 0 0)))%rs.
 Definition series_j1 (d : Dual3 R) : Dual3 R := ((d - d * d * d / (Rlit (FLit (10 # 1)%Q 0 0))) / (Rlit (FLit (3 # 1)%Q 0 0)))%rs.
-Definition series_j2 (d : Dual3 R) : Dual3 R := (d * d / (Rlit (FLit (15 # 1)%Q 0 0)))%rs.
+Definition series_j2 (d : Dual3 R) : Dual3 R := (d * d / (Rlit (FLit (15 # 1)%Q 0 0)) * ((Overload.one : Dual3 R) - d * d / (Rlit (FLit (14 # 1)%Q 0 0))))%rs.
 
 Lemma sph_branches (d : Dual3 R) :
   (~ Rabs (Dual3_f_re d) < eps64 -> m_sph_j0 d = closed_j0 d /\ m_sph_j1 d = closed_j1 d /\ m_sph_j2 d = closed_j2 d) /\
